@@ -462,6 +462,48 @@ func GenShapesWorkload(r *Rand) *Workload {
 	return w
 }
 
+// GenAliasedMappingWorkload: an OpenAPI union of references whose discriminator mapping gives
+// several values to one type (aliases) - whatever is derived from the mapping by ranging over it
+// has ties that only the order of the map can break.
+func GenAliasedMappingWorkload(r *Rand) *Workload {
+	w := &Workload{Files: map[string]string{}, Types: true, Builders: r.Bool(), Converters: false}
+	variant := func(name, tag string) WObject {
+		return WObject{Name: name, T: &WType{K: "struct", Fields: []WField{
+			{Name: "type", T: &WType{K: "string", Const: tag}, Required: true},
+			{Name: "payload", T: &WType{K: "string"}},
+		}}}
+	}
+	names := Shuffled(r, []string{"Alpha", "Beta", "Gamma"})
+	u := &WType{K: "union", Disc: "type"}
+	p := &WPackage{Name: "aliased"}
+	for i, n := range names {
+		p.Objects = append(p.Objects, variant(n, fmt.Sprintf("v%d", i)))
+		u.Branches = append(u.Branches, &WType{K: "ref", Ref: n})
+		u.DiscMap = append(u.DiscMap, [2]string{fmt.Sprintf("v%d", i), n})
+	}
+	for _, a := range Shuffled(r, []string{"zz_alias", "aa_alias", "mm_alias", "Alias"})[:2+r.Intn(3)] {
+		u.DiscMap = append(u.DiscMap, [2]string{a, names[r.Intn(2)]})
+	}
+	p.Objects = append(p.Objects, WObject{Name: "Holder", T: &WType{K: "struct", Fields: []WField{
+		{Name: "one", T: u, Required: true},
+		{Name: "many", T: &WType{K: "array", Elem: u}},
+	}}})
+	w.Files["in/aliased/openapi.json"] = p.RenderOpenAPI()
+	w.Inputs = []InputSpec{{Kind: "openapi", Path: "in/aliased/openapi.json", Package: "aliased", NoValidate: r.Bool()}}
+	w.Languages = GenLanguages(r, 1, 3)
+	havePy := false
+	for _, l := range w.Languages {
+		if l.Name == "python" {
+			havePy = true
+		}
+	}
+	if !havePy && r.Chance(2, 3) {
+		w.Languages = append(w.Languages, LangSpec{Name: "python", Flags: map[string]string{}})
+	}
+	w.Name = "aliased-mapping -> " + strings.Join(w.LangNames(), ",")
+	return w
+}
+
 // GenFoldedDefaultsWorkload: a fields_set_default whose keys differ in letter case only
 // (they all name the same field) and carry different values, next to other configuration
 // maps with several entries (hints, omit lists).
